@@ -146,6 +146,34 @@ CHECKS["C10"] = dict(
     note=TRUST + "SVD semantics (F = w.diag(s).vh, orthogonality) are NOT used, so objectivity, exactness for a known "
          "stretch, vanishing at zero strain and first-order agreement across m are not decided.")
 
+CHECKS["C01"] = dict(
+    category="other", design_ref="DESIGN.md section 3 / C01",
+    technique="translation-validation style sibling agreement by polynomial value numbering: symbolic execution of the C "
+              "kernels (clang AST) and interpretation of the Python/numba sources, atan2/half-angle rewriting, numeric "
+              "refutation + exact normal-form proof; call-site role rules; OpenMP discipline",
+    text="Static, for symbolic values of every parameter at once (all flips, omegasign, wedge and chi together with a "
+         "translation): (R4) the fast route = Ctransform packing (interpreted) + compute_xlylzl + compute_geometry "
+         "(symbolically executed) equals the documented Python formulas stage by stage - lab coordinates, grain-origin "
+         "shift, two-theta, eta, g-vector, d-star; (R2) the two C kernels agree; (R3) each numba clone equals the "
+         "transform.py function of the same name and compute_gve equals the reference chain; (R1) every kernel call site "
+         "passes omegasign/wavelength/wedge/chi/t in the slot the interface names; (R5) fast and slow branches of "
+         "updateGeometry write the same nine columns from the same inputs, omega sign applied, refinegrains passes "
+         "wedge and chi everywhere; (R6) the parallel loops are race free. Equality is of real-valued functions, not "
+         "of floating-point results.",
+    note=TRUST + "Generic branch of 'if chi != 0 / wedge != 0 / t != 0' tests (the skipped branches are the same formula at "
+         "the special value). Not decided: rounding, spatial distortion upstream.")
+CHECKS["C02"] = dict(
+    category="proof", design_ref="DESIGN.md section 3 / C02",
+    technique="polynomial identities (sin^2+cos^2=1) proved on the interpreted Python/numba sources and the symbolically "
+              "executed C kernels; mask-discipline and domain-guard rules on the ast",
+    text="Proof for all inputs (real arithmetic): |compute_g_from_k(k,omega,wedge,chi)|^2 = |k|^2 in transform.py and the "
+         "numba copy on every branch, |compute_k_vectors|^2 = (2 sin(theta)/lambda)^2, |compute_g_vectors|^2 likewise; in "
+         "C gv.gv = k.k, out[2]^2 = |g|^2 and k.k = (2/lambda^2)(1 - d0/|d|) - reference-independent laws, so an error made "
+         "consistently in every implementation is still caught. Structural: returned angles are multiplied by the "
+         "validity mask, callers bind it, and the mask bounds the arcsin argument on both sides.",
+    note=TRUST + "Not decided: the two-solution inversion g -> angles -> g, the detector projection round trip, rigid "
+         "rotation about the axis under a change of omega (needs angle-addition).")
+
 NOT_YET = {}
 
 NOT_APPLICABLE = {
